@@ -389,5 +389,39 @@ fn main() {
         };
         one_case(&format!("c{}", k), &mut xot, &reg, &tree, &mut out, &mut stats);
     }
+    // "any shape incl. deep chains and wide fans": one element with very many children, one chain of very many levels — the
+    // counts the axes give from the last child / the innermost element (a stack overflow here aborts the run, which the check
+    // reports as a failed run)
+    {
+        let n = if a.tier == "thorough" { 300_000usize } else { 120_000 };
+        let mut x = Xot::new();
+        let name = x.add_name("w");
+        let top = x.new_element(name);
+        let mut last = top;
+        for _ in 0..n { last = x.new_element(name); x.append(top, last).unwrap(); }
+        let first = x.first_child(top).unwrap();
+        // on a thread with the 2 MiB stack Rust gives its threads by default (the main thread has more)
+        let counts = std::thread::scope(|sc| {
+            std::thread::Builder::new().stack_size(2 << 20).spawn_scoped(sc, || {
+                (x.preceding(last).count(), x.following(first).count(), x.preceding_siblings(last).count(), x.descendants(top).count(),
+                 x.axis(xot::Axis::Preceding, last).count(), x.reverse_preorder(last).count())
+            }).unwrap().join().unwrap()
+        });
+        stats.bump("wide_fan.cases");
+        if counts != (n - 1, n - 1, n, n + 1, n - 1, n + 1) {
+            out.fail("wide-fan", "wide-fan-axes", &format!("an element with {} children: preceding(last), following(first), preceding_siblings(last), descendants(top), axis(Preceding, last), reverse_preorder(last) count {:?}", n, counts));
+        }
+        let depth = if a.tier == "thorough" { 100_000usize } else { 40_000 };
+        let mut y = Xot::new();
+        let name = y.add_name("d");
+        let top = y.new_element(name);
+        let mut cur = top;
+        for _ in 0..depth { let e = y.new_element(name); y.append(cur, e).unwrap(); cur = e; }
+        let counts = (y.ancestors(cur).count(), y.descendants(top).count(), y.preceding(cur).count(), y.following(top).count());
+        stats.bump("deep_chain.cases");
+        if counts != (depth + 1, depth + 1, 0, 0) {
+            out.fail("deep-chain", "deep-chain-axes", &format!("a chain of {} levels: ancestors(innermost), descendants(top), preceding(innermost), following(top) count {:?}", depth, counts));
+        }
+    }
     out.finish(&stats);
 }
